@@ -16,7 +16,7 @@ var c10Ops = func() []sop {
 }()
 
 func c10Run(c *fw.Ctx) {
-	for _, cap := range []int{0, 2} {
+	for _, cap := range []int{0, 2, 1} {
 		spec := sys.StoreSpec{Backend: "file", Cap: cap}
 		e := &fw.SeqExplorer{
 			C: c, NOps: len(c10Ops),
